@@ -35,7 +35,7 @@ MUST_FIRE = [
     ('C03', 'first comprehension iterable resolved inside the comprehension', S + 'rename/mapper.py', "    iter_namespace = namespace\n    for generator in node.generators:", "    iter_namespace = node\n    for generator in node.generators:", 'C03.TAB'),
     ('C03', 'class keywords resolved in the class', S + 'rename/mapper.py', "        for node in classdef.keywords:\n            add_parent(node, namespace=classdef.namespace)", "        for node in classdef.keywords:\n            add_parent(node, namespace=classdef)", 'C03.TAB'),
     ('C03', 'MatchStar rename arm deleted', S + 'rename/binding.py', "            elif isinstance(node, ast.MatchStar):\n                node.name = new_name\n", "", 'C03.EX'),
-    ('C03', 'ExceptHandler binder arm disabled', S + 'rename/bind_names.py', "            if isinstance(node.name, str) and node.name not in node.namespace.nonlocal_names:\n                # python 3\n                self.get_binding(node.name, node.namespace).add_reference(node)", "            if isinstance(node.name, str) and node.name not in node.namespace.nonlocal_names:\n                # python 3\n                pass", 'C03.EX'),
+    ('C03', 'ExceptHandler binder arm disabled', S + 'rename/bind_names.py', "            if isinstance(node.name, str) and node.name not in node.namespace.nonlocal_names:\n                # python 3\n                self.get_binding(node.name, node.namespace).add_reference(node)", "            if isinstance(node.name, str) and node.name not in node.namespace.nonlocal_names:\n                # python 3\n                pass", 'C03.RESOLVE'),
     ('C03', 'name generator unfiltered', S + 'rename/name_generator.py', "    for name in name_generator():\n        if name not in reserved:\n            yield name", "    for name in name_generator():\n        yield name", 'C03.FLOW'),
     ('C03', 'builtins not excluded from generated names', S + 'rename/name_generator.py', "    reserved = keyword.kwlist + dir(builtins)", "    reserved = keyword.kwlist", 'C03.FLOW'),
     ('C03', 'is_available is existential', S + 'rename/renamer.py', "        return all(name not in namespace.assigned_names for namespace in reservation_scope)", "        return any(name not in namespace.assigned_names for namespace in reservation_scope)", 'C03.RES'),
@@ -115,7 +115,7 @@ MUST_FIRE = [
     ('C11', 'module level cache', S + 'rename/name_generator.py', "def name_filter():\n", "_seen = []\n\n\ndef name_filter():\n    _seen.append(1)\n", 'C11.GLOB'),
     ('C11', 'preserved set feeds output order', S + '__init__.py', "    preserve_locals = list(preserve_locals) + sorted(module.preserved)", "    preserve_locals = list(preserve_locals) + list(module.preserved)", 'C11.ORDR'),
     ('C11', 'random suffix for new names', S + 'rename/renamer.py', "    def available_name(self, reservation_scope, prefix=''):\n", "    def available_name(self, reservation_scope, prefix=''):\n        import random\n        random.random()\n", 'C11.ND'),
-    ('C11', 'options object mutated', S + '__init__.py', "        remove_annotations_options = remove_annotations\n", "        remove_annotations_options = remove_annotations\n        remove_annotations.remove_class_attribute_annotations = False\n", 'C11.MUT'),
+    ('C11', 'options object mutated', S + '__init__.py', "        remove_annotations_options = remove_annotations\n", "        remove_annotations_options = remove_annotations\n        remove_annotations.remove_class_attribute_annotations = False\n", 'C11.'),
     # ---- C12
     ('C12', 'backslash removed from the escape table', S + 'ministring.py', "            '\\n': BACKSLASH + 'n',\n            '\\\\': BACKSLASH + BACKSLASH,\n            '\\a': BACKSLASH + 'a',", "            '\\n': BACKSLASH + 'n',\n            '\\a': BACKSLASH + 'a',", 'C12.ESC'),
     ('C12', 'eval with the caller\'s globals', S + 'transforms/constant_folding.py', "    return eval(expression, empty_globals, empty_locals)", "    return eval(expression, globals(), empty_locals)", 'C12.SINK'),
@@ -157,11 +157,11 @@ MUST_FIRE = [
     ('C16', 'shebang joined without newline', S + '__init__.py', "            return shebang_line + '\\n' + minified", "            return shebang_line + minified", 'C16.SHEB'),
     ('C16', 'string literals printed with ascii()', S + 'token_printer.py', "        \"\"\"Add a string literal to the output code.\"\"\"\n        s = repr(value)", "        \"\"\"Add a string literal to the output code.\"\"\"\n        s = ascii(value).lower()", 'C16.REPR'),
     # ---- C17
-    ('C17', 'rename when more expensive', S + 'rename/binding.py', "        return rename_cost <= current_cost\n\n    def disallow_rename", "        return rename_cost >= current_cost\n\n    def disallow_rename", 'C17.DIR'),
+    ('C17', 'rename when more expensive', S + 'rename/binding.py', "        return rename_cost <= current_cost\n\n    def disallow_rename", "        return rename_cost >= current_cost\n\n    def disallow_rename", 'C17.COST'),
     ('C17', 'ascending mention count', S + 'rename/renamer.py', "    return sorted(all_bindings(module), key=comp, reverse=True)", "    return sorted(all_bindings(module), key=comp)", 'C17.SORT'),
     ('C17', 'equality based classifier', S + 'transforms/suite_transformer.py', "        if node.value is None or node.value is True or node.value is False:\n            method = 'visit_NameConstant'", "        if node.value in [None, True, False]:\n            method = 'visit_NameConstant'", 'C17.K1'),
     ('C17', 'profitability test skipped', S + 'rename/renamer.py', "                if should_rename(binding, name, scope):\n                    binding.rename(name)", "                if True:\n                    binding.rename(name)", 'C17.GATE'),
-    ('C17', 'hoisting cost ignores the assignment', S + 'rename/rename_literals.py', "        rename_cost = (self.old_mention_count() * len(repr(self.value))) + ((self.new_mention_count()) * len(new_name)) + self.additional_byte_cost()\n\n        return rename_cost <= current_cost", "        rename_cost = (self.old_mention_count() * len(repr(self.value))) + ((self.new_mention_count()) * len(new_name)) + self.additional_byte_cost()\n\n        return current_cost <= rename_cost", 'C17.DIR'),
+    ('C17', 'hoisting cost ignores the assignment', S + 'rename/rename_literals.py', "        rename_cost = (self.old_mention_count() * len(repr(self.value))) + ((self.new_mention_count()) * len(new_name)) + self.additional_byte_cost()\n\n        return rename_cost <= current_cost", "        rename_cost = (self.old_mention_count() * len(repr(self.value))) + ((self.new_mention_count()) * len(new_name)) + self.additional_byte_cost()\n\n        return current_cost <= rename_cost", 'C17.HOIST'),
     ('C17', 'helper forces renames', S + 'rename/renamer.py', "                if binding.reserved == binding.name:\n                    # We already reserved it (this is probably an arg)\n                    return False", "                if binding.reserved == binding.name:\n                    # We already reserved it (this is probably an arg)\n                    return True", 'C17.GATE'),
 ]
 
@@ -208,6 +208,7 @@ MUST_STAY_SILENT = [
 
 # Behaviour-preserving refactorings of whole modules (written by independent agents, each verified by its author with a differential run against
 # the original on thousands of inputs; the full file contents live under pmstatic/battery_files/<dir>). Every listed property must stay silent.
+ALL = ['C%02d' % i for i in range(1, 18)]
 REFACTORINGS = [
     ('refactoring R1: printers (helpers for token separation, literal emitters, tables as module constants)', 'refactor_r1', ['C02', 'C03', 'C08', 'C12', 'C16']),
     ('refactoring R2: module printer, f-string and string quoting (class-level tables, literal joining helper)', 'refactor_r2', ['C02', 'C03', 'C08', 'C12', 'C16']),
@@ -215,6 +216,13 @@ REFACTORINGS = [
     ('refactoring R4: bindings, renamer, literal hoisting (node class tables, should_rename as a method, loops instead of recursion)', 'refactor_r4', ['C03', 'C04', 'C06', 'C09', 'C10', 'C11', 'C17']),
     ('refactoring R5: every transform (shared suite helpers, folding split into helper methods, debug table)', 'refactor_r5', ['C01', 'C05', 'C07', 'C08', 'C09', 'C12', 'C17']),
     ('refactoring R6: minify() and the command line module (normalisation helpers, write_result, build_parser / validate_args)', 'refactor_r6', ['C01', 'C05', 'C09', 'C10', 'C11', 'C13', 'C14', 'C15', 'C16']),
+    # second wave, written by independent sessions that saw only the repository (not the checker): every property is run on each of them
+    ('refactoring R7: the three printers rewritten (dispatch tables, helper methods, renamed internals)', 'refactor_r7', ALL),
+    ('refactoring R8: the whole rename package rewritten (iterative walks, tables, helpers renamed and moved)', 'refactor_r8', ALL),
+    ('refactoring R9: every transform and util rewritten (shared helpers, reference implementations restructured)', 'refactor_r9', ALL),
+    ('refactoring R10: minify(), the command line module, parent annotation and tree comparison rewritten', 'refactor_r10', ALL),
+    ('refactoring R11: f-string and string quoting rewritten', 'refactor_r11', ALL),
+    ('refactoring R12: 30 modules rewritten at once (4000-line patch: internals renamed, inlined, split, moved between modules)', 'refactor_r12', ALL),
 ]
 
 
